@@ -44,6 +44,10 @@ theorem u32Rem_of_ne {a b : Nat} (h : b ≠ 0) : u32Rem a b = .ok (a % b) := by 
 theorem u64Mul_of_lt {a b : Nat} (h : a * b < 18446744073709551616) : u64Mul a b = .ok (a * b) := by
   simp [u64Mul, h]
 
+theorem u64Add_of_lt {a b : Nat} (h : a + b < 18446744073709551616) : u64Add a b = .ok (a + b) := by
+  simp [u64Add, h]
+theorem u64Div_of_ne {a b : Nat} (h : b ≠ 0) : u64Div a b = .ok (a / b) := by simp [u64Div, h]
+
 theorem u32Add_error {a b : Nat} {e : Err} : u32Add a b = .error e → e = .panic ∧ 4294967296 ≤ a + b := by
   unfold u32Add; split <;> simp_all <;> omega
 theorem u32Mul_error {a b : Nat} {e : Err} : u32Mul a b = .error e → e = .panic ∧ 4294967296 ≤ a * b := by
